@@ -106,7 +106,7 @@ func checkC07(c *Ctx) {
 	}
 	if iface := c.coreIface(); iface != nil {
 		for _, t := range c.Implementers(iface) {
-			list = append(list, deriveM{t.Obj().Pkg().Path(), t.Obj().Name(), "With"})
+			list = append(list, deriveM{t.Obj().Pkg().Path(), TNm(t.Obj()), "With"})
 		}
 	}
 	list = append(list, deriveM{CorePath, "jsonEncoder", "Clone"}, deriveM{CorePath, "consoleEncoder", "Clone"}, deriveM{CorePath, "ioCore", "clone"}, deriveM{ZapPath, "Logger", "clone"},
@@ -833,7 +833,7 @@ func c7Eager(c *Ctx) {
 					v = mi.X
 				}
 				if n, ok := types.Unalias(v.Type()).(*types.Named); ok && n.Obj().Pkg() != nil && n.Obj().Pkg().Path() == ZapPath {
-					if m := c.Method(ZapPath, n.Obj().Name(), "apply"); m != nil {
+					if m := c.Method(ZapPath, TNm(n.Obj()), "apply"); m != nil {
 						region = append(region, Region(m)...)
 					}
 				}
